@@ -582,7 +582,7 @@ impl Group for C09Sweep {
          offered/received, both script forms) with mutated version/locktime/sequence/delay/revocation key/delayed key/value/extra inputs \
          and outputs and fees at the min/max feerate edges; non-trivial = at least one signature and one refusal"
     }
-    fn budget(&self, tier: Tier) -> usize { if tier == Tier::Quick { 500 } else { 10000 } }
+    fn budget(&self, tier: Tier) -> usize { if tier == Tier::Quick { 2500 } else { 40000 } }
     fn corpus(&self) -> Vec<Vec<String>> {
         let c = |s: &str| s.split('|').map(|x| x.to_string()).collect::<Vec<String>>();
         vec![
